@@ -29,6 +29,10 @@ def to_code_data(code: CodeType) -> CodeData:
     else:
         posonlyargcount = 0
 
+    if code.co_nlocals != len(code.co_varnames):
+        # nlocals is not stored, it is recomputed from the varnames
+        raise NotImplementedError("co_nlocals differs from the number of co_varnames")
+
     line_mapping = to_line_mapping(code)
 
     line_mapping.modify_line_offsets(code.co_firstlineno)
